@@ -186,7 +186,12 @@ fn exec_line(line: &str) -> String {
         coq_special(i.sep, SEP_ID),
         impl_term
     );
-    format!("{}-{}-{}\t{}\t{}", kind, sp, tag, fmt_input(&i), term)
+    let tag = if tag.starts_with("trivial") {
+        format!("trivial-{}-{}-nochunks", kind, sp)
+    } else {
+        format!("{}-{}-{}", kind, sp, tag)
+    };
+    format!("{}\t{}\t{}", tag, fmt_input(&i), term)
 }
 
 fn generate(seed: u64, n: usize, tier: &str, out: &mut impl Write) {
